@@ -102,6 +102,9 @@ func (e *Enc) mapStore(f *frame, x *ssa.MapUpdate) bool {
 		return false
 	}
 	e.bumpMapVersion(m.Id)
+	// ghost_loc_mapStores counts the map stores of this function (loop steps
+	// use it to say "this iteration recorded something")
+	e.setVar("G|loc_mapStores", add(e.getVar(e.cur, "G|loc_mapStores", SBV64), bv64(1)))
 	v, ok := e.mapRead(e.cur, mt, m.Id, e.val(x.Key))
 	e.assume(ok)
 	want := e.flatten(mt.Elem(), e.val(x.Value))
